@@ -18,6 +18,7 @@
 package types
 
 import (
+	"bytes"
 	"encoding/base64"
 	"encoding/json"
 	"reflect"
@@ -196,6 +197,17 @@ func (c *ColumnImage) MarshalJSON() ([]byte, error) {
 	if t, ok := c.Value.(time.Time); ok {
 		value = t.Format(time.RFC3339Nano)
 	}
+	if text, ok := c.Value.(string); ok {
+		switch c.ColumnType {
+		case JDBCTypeChar, JDBCTypeVarchar, JDBCTypeLongVarchar:
+			// The reader cannot tell a text from the base64 form of a byte slice and tries base64 first: a
+			// text that happens to be valid base64 ("test", "John") would come back as other bytes. Such a
+			// text is written in its base64 form, which the reader turns back into the text.
+			if _, err := base64.StdEncoding.DecodeString(text); err == nil {
+				value = []byte(text)
+			}
+		}
+	}
 	return json.Marshal(&columnImageAlias{
 		KeyType:    c.KeyType,
 		ColumnName: c.ColumnName,
@@ -207,7 +219,10 @@ func (c *ColumnImage) MarshalJSON() ([]byte, error) {
 func (c *ColumnImage) UnmarshalJSON(data []byte) error {
 	var err error
 	tmpImage := make(map[string]interface{})
-	if err := json.Unmarshal(data, &tmpImage); err != nil {
+	// numbers are kept as they are written: a 64-bit integer does not survive a detour through float64
+	decoder := json.NewDecoder(bytes.NewReader(data))
+	decoder.UseNumber()
+	if err := decoder.Decode(&tmpImage); err != nil {
 		return err
 	}
 	var (
@@ -218,48 +233,16 @@ func (c *ColumnImage) UnmarshalJSON(data []byte) error {
 		actualValue interface{}
 	)
 	keyType = tmpImage["keyType"].(string)
-	columnType = int16(int64(tmpImage["type"].(float64)))
+	typeNumber, err := tmpImage["type"].(json.Number).Int64()
+	if err != nil {
+		return err
+	}
+	columnType = int16(typeNumber)
 	columnName = tmpImage["name"].(string)
 	value = tmpImage["value"]
 
-	if value != nil {
-		switch JDBCType(columnType) {
-		case JDBCTypeReal: // 4 Bytes
-			actualValue = float32(value.(float64))
-		case JDBCTypeDecimal, JDBCTypeDouble: // 8 Bytes
-			actualValue = value.(float64)
-		case JDBCTypeTinyInt: // 1 Bytes
-			actualValue = int8(value.(float64))
-		case JDBCTypeSmallInt: // 2 Bytes
-			actualValue = int16(value.(float64))
-		case JDBCTypeInteger: // 4 Bytes
-			actualValue = int32(value.(float64))
-		case JDBCTypeBigInt: // 8Bytes
-			actualValue = int64(value.(float64))
-		case JDBCTypeTimestamp: // 4 Bytes
-			actualValue, err = time.Parse(time.RFC3339Nano, value.(string))
-			if err != nil {
-				return err
-			}
-		case JDBCTypeDate: // 3Bytes
-			actualValue, err = time.Parse(time.RFC3339Nano, value.(string))
-			if err != nil {
-				return err
-			}
-		case JDBCTypeTime: // 3Bytes
-			actualValue, err = time.Parse(time.RFC3339Nano, value.(string))
-			if err != nil {
-				return err
-			}
-		case JDBCTypeChar, JDBCTypeVarchar, JDBCTypeLongVarchar:
-			var val []byte
-			if val, err = base64.StdEncoding.DecodeString(value.(string)); err != nil {
-				val = []byte(value.(string))
-			}
-			actualValue = string(val)
-		case JDBCTypeBinary, JDBCTypeVarBinary, JDBCTypeLongVarBinary, JDBCTypeBit:
-			actualValue = value
-		}
+	if actualValue, err = ColumnValueFromJSON(JDBCType(columnType), value); err != nil {
+		return err
 	}
 	*c = ColumnImage{
 		KeyType:    ParseIndexType(keyType),
@@ -268,6 +251,93 @@ func (c *ColumnImage) UnmarshalJSON(data []byte) error {
 		Value:      actualValue,
 	}
 	return nil
+}
+
+// ColumnValueFromJSON turns the value a JSON document holds for a column (a string, a json.Number or float64,
+// a bool, nil) into the Go value an image carries for a column of that type.
+func ColumnValueFromJSON(columnType JDBCType, value interface{}) (interface{}, error) {
+	if value == nil {
+		return nil, nil
+	}
+	asFloat := func() (float64, bool) {
+		switch v := value.(type) {
+		case json.Number:
+			f, err := v.Float64()
+			return f, err == nil
+		case float64:
+			return v, true
+		}
+		return 0, false
+	}
+	asInt := func() (int64, bool) {
+		switch v := value.(type) {
+		case json.Number:
+			if i, err := v.Int64(); err == nil {
+				return i, true
+			}
+			f, err := v.Float64()
+			return int64(f), err == nil
+		case float64:
+			return int64(v), true
+		}
+		return 0, false
+	}
+	switch columnType {
+	case JDBCTypeReal: // 4 Bytes
+		if f, ok := asFloat(); ok {
+			return float32(f), nil
+		}
+	case JDBCTypeDecimal, JDBCTypeDouble: // 8 Bytes
+		if f, ok := asFloat(); ok {
+			return f, nil
+		}
+	case JDBCTypeTinyInt: // 1 Bytes
+		if i, ok := asInt(); ok {
+			return int8(i), nil
+		}
+	case JDBCTypeSmallInt: // 2 Bytes
+		if i, ok := asInt(); ok {
+			return int16(i), nil
+		}
+	case JDBCTypeInteger: // 4 Bytes
+		if i, ok := asInt(); ok {
+			return int32(i), nil
+		}
+	case JDBCTypeBigInt: // 8Bytes
+		if i, ok := asInt(); ok {
+			return i, nil
+		}
+	case JDBCTypeTimestamp, JDBCTypeDate, JDBCTypeTime:
+		if s, ok := value.(string); ok {
+			return time.Parse(time.RFC3339Nano, s)
+		}
+	case JDBCTypeChar, JDBCTypeVarchar, JDBCTypeLongVarchar:
+		if s, ok := value.(string); ok {
+			val, err := base64.StdEncoding.DecodeString(s)
+			if err != nil {
+				val = []byte(s)
+			}
+			return string(val), nil
+		}
+	case JDBCTypeBinary, JDBCTypeVarBinary, JDBCTypeLongVarBinary, JDBCTypeBit, JDBCTypeBlob:
+		// the bytes of a binary value are written as base64 text
+		if s, ok := value.(string); ok {
+			val, err := base64.StdEncoding.DecodeString(s)
+			if err != nil {
+				val = []byte(s)
+			}
+			return val, nil
+		}
+	}
+	// a type without a rule of its own, or a value of an unexpected shape: as the document has it
+	if n, ok := value.(json.Number); ok {
+		if i, err := n.Int64(); err == nil {
+			return i, nil
+		}
+		f, err := n.Float64()
+		return f, err
+	}
+	return value, nil
 }
 
 func (c *ColumnImage) GetActualValue() interface{} {
